@@ -14,7 +14,21 @@ import time
 import traceback
 
 ROOT = os.path.dirname(os.path.dirname(os.path.abspath(__file__)))
-MAX_REPLAYS_PER_CASE = 4     # further candidates of the same case are counted but not replayed
+MAX_REPLAYS_PER_CASE = 6     # unlisted candidates replayed per case (further ones are counted; they never turn into a silent pass)
+MAX_REPLAYS_PER_KNOWN = 2    # candidates replayed per case and known-finding id
+
+
+def select_for_replay(cands):
+    """indices of the candidates to replay: unlisted ones first, then a few per known-finding id"""
+    plain = [i for i, c in enumerate(cands) if not c.get('known')]
+    chosen = plain[:MAX_REPLAYS_PER_CASE]
+    per = {}
+    for i, c in enumerate(cands):
+        k = c.get('known')
+        if k and per.get(k, 0) < MAX_REPLAYS_PER_KNOWN:
+            per[k] = per.get(k, 0) + 1
+            chosen.append(i)
+    return chosen, len(plain) - min(len(plain), MAX_REPLAYS_PER_CASE)
 
 
 def _worker(args):
@@ -68,7 +82,9 @@ def run_property(prop, tier, seed, jobs=None, only=None):
                                  extra=v.get('extra', {})))
         for i, pc in enumerate(r.get('pchecks', [])):
             requests.append(dict(kind='pcheck', prop=prop, case=r['case'], kwargs=r['kwargs'], idx=i, env=pc.get('env', {}), extra=pc.get('extra', {})))
-        for i, c in enumerate(r.get('candidates', [])[:MAX_REPLAYS_PER_CASE]):
+        r['_replay_idx'], r['_not_replayed'] = select_for_replay(r.get('candidates', []))
+        for i in r['_replay_idx']:
+            c = r['candidates'][i]
             requests.append(dict(kind='replay', prop=prop, case=r['case'], kwargs=r['kwargs'], idx=i, env=c['env'],
                                  name=c['name'], info=c['info']))
     answers = replay.run_pristine(requests, tier=tier, seed=seed) if requests else []
@@ -108,7 +124,9 @@ def run_property(prop, tier, seed, jobs=None, only=None):
             for v in po.get('violations', []):
                 path = replay.write_replay(prop, r['case'], r['kwargs'], dict(name=v['name'], env=v.get('env', {}), info=v.get('info', {})), v['text'])
                 violations.append((r['case'], v['name'], v['text'], path))
-        for i, c in enumerate(r.get('candidates', [])[:MAX_REPLAYS_PER_CASE]):
+        n_viol_before = len(violations)
+        for i in r.get('_replay_idx', []):
+            c = r['candidates'][i]
             a = ans.get(('replay', r['case'], i))
             confirmed, text = mod.judge(r['case'], r['kwargs'], c, a) if a else (None, 'no answer from the pristine interpreter')
             kf = known.by_id(findings, c['known']) if c.get('known') else None
@@ -122,6 +140,8 @@ def run_property(prop, tier, seed, jobs=None, only=None):
                 unconfirmed.append((r['case'], c['name'], text))
             else:
                 inconclusive.append((r['case'], 'replay failed: %s: %s' % (c['name'], text)))
+        if r.get('_not_replayed') and len(violations) == n_viol_before:
+            inconclusive.append((r['case'], '%d further candidates were not replayed and none of the replayed ones was confirmed' % r['_not_replayed']))
         for kh in r.get('known_hits', []):
             kf = known.by_id(findings, kh[0])
             if kf is not None and kf.get('status') == 'open':
